@@ -1,6 +1,6 @@
 (** C10 — Shards respect the configured size.
     Property theorems only; each is closed by [exact] of a lemma proved in Proofs/. *)
-Require Import Sedpack.Model.Base Sedpack.Generated.GenFiller Sedpack.Model.Filler Sedpack.Proofs.FillerProofs.
+Require Import Sedpack.Model.Base Sedpack.Generated.GenFiller Sedpack.Model.Filler Sedpack.Proofs.FillerProofs Sedpack.Proofs.FillerChange.
 
 (** For every shard size >= 1 and every sequence of caller operations inside a filler context
     (writes to any interleaving of splits, with or without metadata, accepted or rejected by the
@@ -22,6 +22,19 @@ Print Assumptions c10_all_but_last_full.
 
 (** Non-vacuity: a concrete session with roll-overs, a metadata change, a rejected write and two
     splits produces five shards, satisfies the hypotheses, and one split has a short last shard. *)
+(** The second sentence of the property at full strength, write by write: whenever a [write_example] call of a session closes a
+    shard (i.e. before the session ends), that shard is full, or the shard-level metadata changes at this very write: the value
+    passed and the shard's metadata are two different non-empty values (and the shard is not empty).  The write in question may
+    itself be rejected by the shard writer afterwards: the roll-over precedes the validation (generated effect order). *)
+Theorem c10_short_shard_only_at_metadata_change :
+  forall (eps : nat), 1 <= eps -> forall (ops : list wop) (s : split) (cm : option obj) (ok : bool) (sh : shard),
+    let st := run_ops eps ops in
+    f_closed (fst (write_example eps st s cm ok)) = f_closed st ++ [(s, sh)] ->
+    length (sh_ex sh) = eps \/
+    (1 <= length (sh_ex sh) /\ cm_value (f_heap st) cm <> 0 /\ mval (f_heap st) (sh_meta sh) <> 0 /\ cm_value (f_heap st) cm <> mval (f_heap st) (sh_meta sh)).
+Proof. exact short_close_is_metadata_change. Qed.
+Print Assumptions c10_short_shard_only_at_metadata_change.
+
 Theorem c10_nonvacuous :
   let ops := [WMutate 1 7; WWrite Train (Some 1) true; WWrite Train None true; WWrite Test None true;
               WMutate 2 9; WWrite Train (Some 2) true; WWrite Train None true; WWrite Train None false;
